@@ -107,6 +107,8 @@ package rfc8628
 //@ func (*DeviceCodeTokenEndpointHandler).HandleTokenEndpointRequest
 //@   modifies anyheap
 //@   protects [C19.no-write-to-store-owned-session] shared
+//@   protects [C07.stored-expiries-are-not-rewritten] shared
+//@   protects [C02.stored-grant-is-not-rewritten] shared
 //@   let code = formget(old(requester.GetRequestForm()), "device_code")
 //@   let sig = devsig(c.DeviceCodeStrategy, code)
 //@   requires c != nil && requester != nil && !stored[requester] && requester.GetClient() != nil && !shared[requester] && !shared[requester.GetSession()]
